@@ -55,18 +55,30 @@ def framesFrom (mask : Quic.Dissect.MaskFn) (H : Crypto.Prims) (P : Cipher.Prims
 def fileKeysOf (keyFile : Option Keylog.Str) : Option (List Keylog.Key) :=
   keyFile.map fun s => Keylog.getKeysFromString Keylog.srcHexClass (Keylog.universalNewlines s)
 
+/-- `get_port_map(args)` or `[int(x) for x in args.serverports]` raises (main.py l. 196-203): this happens BEFORE the key
+    log and the capture are opened, so a damaged capture does not matter then -/
+def optionsBad (prior : Prior) (args : Args) : Bool :=
+  match Options.getPortMap Options.Src.bare args.mArg with
+  | .error _ => true
+  | .ok _ =>
+    match Options.serverPorts (reset prior).serverPorts Options.Src.pDefault args.pArg with
+    | .error _ => true
+    | .ok _ => false
+
 /-- `run()` in an interpreter whose module state is `prior` -/
 def exportFrom (mask : Quic.Dissect.MaskFn) (H : Crypto.Prims) (P : Cipher.Prims) (prior : Prior) (args : Args)
     (legacy : Bool) (keyFile : Option Keylog.Str) (capture : Bytes) : Outcome :=
-  match Ingest.itemsWith Keylog.srcHexClass args.checksumTest legacy capture with
-  | .error e => .abort (.ingest e)
-  | .ok (xs, is) =>
-    match framesFrom mask H P prior args (fileKeysOf keyFile) xs (Ingest.lookup is) with
-    | .error _ => .badOptions
-    | .ok out =>
-      match OutBytes.fileOf out with
-      | .error e => .abort (.write e)
-      | .ok f => .file f
+  if optionsBad prior args then .badOptions
+  else
+    match Ingest.itemsWith Keylog.srcHexClass args.checksumTest legacy capture with
+    | .error e => .abort (.ingest e)
+    | .ok (xs, is) =>
+      match framesFrom mask H P prior args (fileKeysOf keyFile) xs (Ingest.lookup is) with
+      | .error _ => .badOptions                     -- not reachable: `Props.Export.framesFrom_error_iff`
+      | .ok out =>
+        match OutBytes.fileOf out with
+        | .error e => .abort (.write e)
+        | .ok f => .file f
 
 /-- the program, started in a fresh interpreter -/
 def exportFile (mask : Quic.Dissect.MaskFn) (H : Crypto.Prims) (P : Cipher.Prims) (args : Args) (legacy : Bool)
